@@ -193,3 +193,30 @@ case("c16-thread-local-memo", "break", ["C16"], [(PROF + "common.rs", "pub const
 case("c16-clock", "break", ["C16"], [(PW, "        let s = self.prepare(s)?;\n        let s = self.additional_mapping_rule(s)?;", "        let s = self.prepare(s)?;\n        if std::time::SystemTime::now().duration_since(std::time::UNIX_EPOCH).map(|d| d.as_secs() % 86400 == 0).unwrap_or(false) {\n            return Ok(s);\n        }\n        let s = self.additional_mapping_rule(s)?;")], "clock-dependent result")
 case("c16-refcell-profile", "break", ["C16"], [(PW, "pub struct OpaqueString(FreeformClass);", "pub struct OpaqueString(FreeformClass, std::marker::PhantomData<std::cell::Cell<u8>>);"), (PW, "        Self(FreeformClass::default())", "        Self(FreeformClass::default(), std::marker::PhantomData)")], "profile no longer Sync: the lazy static form would not even build — and the type rule names it")
 case("c16-keep-const-table", "keep", ["C16"], [(PROF + "common.rs", "pub const SPACE: char = '\\u{0020}';", "pub const SPACE: char = '\\u{0020}';\n\n#[allow(dead_code)]\nstatic ASCII_SPACES: [char; 2] = [' ', '\\t'];")], "an immutable Freeze static is not hidden state")
+
+# ------------------------------------------------------------------ C01
+CTX = CORE + "context.rs"
+case("c01-revert-d1", "break", ["C01"], [(NK, "for (index, c) in label.char_indices() {", "for (index, c) in label.chars().enumerate() {")], "reverts the D1 repair", expect_key=["slice-bound"])
+case("c01-unwrap-from-u32", "break", ["C01"], [(U, "char::from_u32(d).ok_or(Error::Unexpected(UnexpectedError::Undefined))?", "char::from_u32(d).unwrap()")], expect_key=["panic"])
+case("c01-before-unguarded", "break", ["C01"], [(CTX, "    if offset == 0 {\n        None\n    } else {\n        s.chars().nth(offset - 1)\n    }", "    s.chars().nth(offset - 1)")], "before(s, 0) underflows (debug) — tests call before(\"\", 0): may fail the suite", expect_key=["unproved-assert"])
+case("c01-after-before-check", "break", ["C01"], [(CTX, """    if 0x0375 != s.chars().nth(offset).ok_or(ContextRuleError::Undefined)? as u32 {
+        return Err(ContextRuleError::NotApplicable);
+    }
+    let after = after(s, offset).ok_or(ContextRuleError::Undefined)?;""", """    let after = after(s, offset).ok_or(ContextRuleError::Undefined)?;
+    if 0x0375 != s.chars().nth(offset).ok_or(ContextRuleError::Undefined)? as u32 {
+        return Err(ContextRuleError::NotApplicable);
+    }""")], "offset + 1 evaluated before offset is known to be inside the label: rule(s, usize::MAX) overflows", expect_key=["unproved-assert"])
+case("c01-slice-plus-one", "break", ["C01"], [(PROF + "common.rs", "            let mut res = String::from(&s[..pos]);\n            res.reserve(s.len() - res.len());\n            for c in s[pos..].chars() {\n                if c.is_lowercase() {", "            let mut res = String::from(&s[..pos + 1]);\n            res.reserve(s.len() - res.len());\n            for c in s[pos + 1..].chars() {\n                if c.is_lowercase() {")], "prefix cut one byte after the first uppercase char: inside it when it is multi-byte", expect_key=["slice-bound"])
+case("c01-partial-cmp-none", "break", ["C01", "C18"], [(TPL, """    fn partial_cmp(&self, other: &u32) -> Option<Ordering> {
+        if self.lt(other) {""", """    fn partial_cmp(&self, other: &u32) -> Option<Ordering> {
+        if let Codepoints::Range(r) = self {
+            if r.start() == r.end() && r.start() == other {
+                return None;
+            }
+        }
+        if self.lt(other) {""")], "None for a one-element range hit exactly: every lookup unwraps it (needs a table row Range(x, x) to manifest)", expect_key=["panic"])
+case("c01-loop-no-step", "break", ["C01"], [(CTX, "        prev = before(s, i).ok_or(ContextRuleError::Undefined)?;\n        cp = prev as u32;\n        i -= 1;", "        prev = before(s, i).ok_or(ContextRuleError::Undefined)?;\n        cp = prev as u32;")], "backward scan never advances: loops forever on a transparent character", expect_key=["termination"])
+case("c01-index-bytes", "break", ["C01"], [(PROF + "bidi.rs", "pub fn has_rtl(label: &str) -> bool {\n    label", "pub fn has_rtl(label: &str) -> bool {\n    if label.as_bytes()[0] == b'-' {\n        return false;\n    }\n    label")], "indexing byte 0 of a possibly empty label (enforce rejects empty strings first, the rule itself does not)")
+case("c01-keep-match-before", "keep", ["C01"], [(CTX, "    if offset == 0 {\n        None\n    } else {\n        s.chars().nth(offset - 1)\n    }", "    match offset {\n        0 => None,\n        n => s.chars().nth(n - 1),\n    }")])
+case("c01-keep-checked-sub", "keep", ["C01"], [(CTX, "    if offset == 0 {\n        None\n    } else {\n        s.chars().nth(offset - 1)\n    }", "    let i = offset.checked_sub(1)?;\n    s.chars().nth(i)")])
+case("c01-keep-skip-nth", "keep", ["C01"], [(CTX, "fn after(s: &str, offset: usize) -> Option<char> {\n    s.chars().nth(offset + 1)", "fn after(s: &str, offset: usize) -> Option<char> {\n    s.chars().skip(offset).nth(1)")], "no arithmetic at all")
